@@ -21,7 +21,7 @@ fn spec() -> Spec {
             Kind { name: "variants", quick: 40_000, thorough: 800_000, serial: false },
             Kind { name: "mutants", quick: 80_000, thorough: 3_000_000, serial: false },
         ],
-        rule: "roundtrip: generated parameter sets (all geometry classes, integral-valued lengths such as b = 0 or c1 = 1, negative values, dof 5/6, J6 sign 0, offsets none / right angles / arbitrary) -> to_yaml() -> file -> from_yaml_file: geometry, signs, dof identical, offsets within 0.5e-4 degree. variants: files written by the harness in the documented format with integer vs real literals, deg(x) vs radians, 5- or 6-element arrays, dof nested / top-level / absent, comments, shuffled key order: must parse to the written values. mutants: valid files truncated, with deleted / duplicated lines, type swaps, random or non-UTF8 bytes, empty: Err or Ok, never a panic. non-trivial = file parsed (roundtrip/variants) or mutant differs from its original (mutants); distinct = hash(file text) Workload additions: dof-6 sets with a blocked sixth sign; offsets that cancel exactly; valid UTF-8 multi-byte scalars; integers around every machine width as scalar replacements.",
+        rule: "roundtrip: generated parameter sets (all geometry classes, integral-valued lengths such as b = 0 or c1 = 1, negative values, dof 5/6, J6 sign 0, offsets none / right angles / arbitrary) -> to_yaml() -> file -> from_yaml_file: geometry, signs, dof identical, offsets within 0.5e-4 degree. variants: files written by the harness in the documented format with integer vs real literals, deg(x) vs radians, 5- or 6-element arrays, dof nested / top-level / absent, comments, shuffled key order: must parse to the written values. mutants: valid files truncated, with deleted / duplicated lines, type swaps, random or non-UTF8 bytes, empty: Err or Ok, never a panic. non-trivial = file parsed (roundtrip/variants) or mutant differs from its original (mutants); distinct = hash(file text) Workload additions: dof-6 sets with a blocked sixth sign; offsets that cancel exactly; valid UTF-8 multi-byte scalars; integers around every machine width as scalar replacements. Rounds 7-9: non-ASCII comments in the mutated files; huge integral lengths.",
         assumptions: vec![
             "the documented place of the dof entry is the top level (doc comment of from_yaml_file and to_yaml output); the nested place used by the bundled 5-DOF fixture is also accepted",
             "files are written under /verif/target/tmp/c19 and removed after each case",
@@ -87,6 +87,11 @@ fn roundtrip(idx: u64, rng: &mut Rng, mon: &mut Mon) {
                 p.offsets[b] = -x;
                 mon.count("roundtrip.offsets_cancelling_exactly");
             }
+        }
+        // (lengths that print as integer literals beyond 32 bits: a geometry kept in micrometres or nanometres)
+        if rng.usize(30) == 0 {
+            p.c1 = *rng.pick(&[3e9, 1e12, 9007199254740992.0, -5e10, 2147483648.0]);
+            mon.count("roundtrip.huge_integral_lengths");
         }
         p.a1 = integralize(rng, p.a1);
         p.a2 = integralize(rng, p.a2);
